@@ -920,6 +920,17 @@ class SyncObj(object):
                     self.__sendNextNodeIdx(node, success=False, reset=True)
                     return
                 if prevEntries[0][2] != prevLogTerm:
+                    if prevLogIdx > self.__raftCommitIndex:
+                        # The entry conflicts with the leader's log, so neither it nor anything after it
+                        # can be committed. Drop them: otherwise the replies to the next messages the leader
+                        # has already sent ("unknown index, retry after my last entry") would move its
+                        # next index forward again and the conflict would never be repaired.
+                        if self.__conf.dynamicMembershipChange:
+                            for entry in reversed(prevEntries):
+                                clusterChangeRequest = self.__parseChangeClusterRequest(entry[0])
+                                if clusterChangeRequest is not None:
+                                    self.__doChangeCluster(clusterChangeRequest, reverse=True)
+                        self.__deleteEntriesFrom(prevLogIdx)
                     self.__sendNextNodeIdx(node, nextNodeIdx = prevLogIdx, success = False, reset=True)
                     return
                 nextNodeIdx = prevLogIdx + 1
